@@ -469,7 +469,7 @@ def operand_class(family, helper, args, exp):
     f = fam(family)
     e = "" if exp is UNSPEC else (f"exp={exp[1]}" if exp[0] in ("bool", "null_type") else "")
     if f == "setpair":
-        return f"{family[8:]}:{e}"
+        return e
     if f == "setone":
         return f"{family[7:]}:{'dups' if len(set(args[0])) < len(args[0]) else 'nodups'}"
     if f == "normalize":
@@ -523,7 +523,8 @@ def judge(part, family, helper, path, text, args):
     kind = "wrong-value" if obs[0] == "V" else "error-instead-of-value" if obs[0] == "E" else "other-exception"
     if obs[0] == "X":
         kind += ":" + obs[2]
-    sig = f"{helper}:{path}:{kind}:{operand_class(family, helper, args, exp)}"
+    # the path *group* (direct call / through CEL) is part of the root cause, the spelling (function or method form) is not
+    sig = f"{helper}:{'cel' if path.startswith('cel') else 'direct'}:{kind}:{operand_class(family, helper, args, exp)}"
     detail = f"{helper} via {path}{' [' + str(text) + ']' if text else ''} on {args!r}: expected {exp!r}, observed {outcome.short(obs)}"
     w = {"part": "helper", "family": family, "helper": helper, "path": path, "text": text, "args": args}
     part.violation(kind, sig, w, detail)
@@ -714,6 +715,11 @@ def check_trace(mode, hist, trace):
             div = (i, kind, f"during-saw:{rel(seen[0], fname)}")
         elif out != m_out:
             div = (i, kind, f"outcome:{out}-instead-of-{m_out}")
+        elif inner == m_during:
+            # mode tests: evaluate() has returned or raised, the outer ``with`` is still open.  None (what the tree does)
+            # and the restored outer context (what a re-entrant repair would do) both count as cleared; the evaluation's
+            # own filter still being installed does not.
+            div = (i, kind, f"not-cleared-after-evaluate-inside-outer-with:{rel(inner, fname)}")
         elif after != m_after:
             div = (i, kind, f"not-cleared-after:{rel(after, fname)}")
     return div, states
@@ -796,6 +802,12 @@ def histsub_shard(task):
 
 
 # =================================================================================================
+def _only():
+    """Development aid: VERIF_C17_ONLY=hist,tags,... restricts the run (recorded in caps_hit, so never 'exhaustive')."""
+    v = os.environ.get("VERIF_C17_ONLY", "")
+    return [x for x in v.split(",") if x] or None
+
+
 def run(ctx):
     globref.selftest()
     cidr.selftest()
@@ -828,6 +840,12 @@ def run(ctx):
         "filter=None, so what the functions see is not compared; clearing and outcomes are",
     ]
     # ---- part 2 first: history workers must come from a process that has never evaluated anything
+    only = _only()
+    if only:
+        ctx.caps_hit.append("VERIF_C17_ONLY=" + ",".join(only))
+        if "hist" not in only:
+            ctx.coverage_extra.update({"states": 0, "transitions": 0, "traces_validated_against_impl": 0})
+            return _run_helpers(ctx, tier, 0, only)
     nh = hist_cardinality(tier)
     ctx.run_shards(hist_shard, [(lo, hi, tier) for lo, hi in runner.shards(nh, 4 * runner.NPROC)])
     subs = [(m, (s,)) for m in MODES for s in HSYMBOLS]
@@ -855,17 +873,21 @@ def run(ctx):
     })
     if ctx.coverage_extra["histories"] != nh:
         raise runner.HarnessError(f"ran {ctx.coverage_extra['histories']} histories, cardinality is {nh}")
-    # ---- part 1: helpers
+    _run_helpers(ctx, tier, nh, only)
+
+
+def _run_helpers(ctx, tier, nh, only):
+    families = [f for f in FAMILIES if not only or fam(f) in only]
     tasks = []
     expected_cases = nh
-    for family in FAMILIES:
+    for family in families:
         n = cardinality(family, tier)
         expected_cases += n * len(VARIANTS[fam(family)])
         per = max(1, min(4 * runner.NPROC, n // 200))
         tasks += [(family, lo, hi, tier) for lo, hi in runner.shards(n, per)]
     tasks.sort(key=lambda t: -(t[2] - t[1]))
     ctx.run_shards(helper_shard, tasks)
-    for family in FAMILIES:
+    for family in families:
         for helper, path, _ in VARIANTS[fam(family)]:
             ctx.part.spaces[f"{family}:{helper}:{path}"]["cardinality"] = cardinality(family, tier)
     ctx.coverage_extra["expected_cases"] = expected_cases
@@ -882,7 +904,7 @@ def replay(w):
         exp = expect(wit["family"], wit["helper"], wit["args"])
         obs = observe(wit["family"], wit["helper"], wit["path"], wit.get("text"), wit["args"])
         print("expected", exp)
-        print("observed", outcome.short(obs), "via", wit["path"], wit.get("text") or "")
+        print("observed", obs[:3], "via", wit["path"], wit.get("text") or "")
         detail = judge(part, wit["family"], wit["helper"], wit["path"], wit.get("text"), wit["args"])
         print("REPRODUCED: " + detail if detail else "not reproduced")
         return 1 if detail else 0
